@@ -34,30 +34,19 @@ def oer_features(t, env):
         k = x["k"]
         if k == "SET": out.add("SET")
         if k == "SEQUENCE" and x.get("ext") is not None:
-            if not x["comps"]: out.add("empty_extensible_sequence")          # F120
             if sum(1 for c in x["comps"][:x["ext"]] if c.get("opt")) >= 8: out.add("ext_seq_ge8_optional")   # F121 (decoder)
     return out
 
 def oer_skip(syn, t, env, skipped):
-    """-> finding id or None.  (F36 of c01.skip_region — INTEGER_compare on non-minimal contents — is
-    irrelevant here: bytes and dumped values are compared, never `compare`; F34 is fixed in /repo.)"""
+    """-> finding id or None.  (F34, F36 and F120 are fixed in /repo.)"""
     feats = oer_features(t, env)
     fid = None
     if "SET" in feats: fid = "F32"
-    elif "empty_extensible_sequence" in feats: fid = "F120"
     if fid: skipped[fid] += 1
     return fid
 
 # Proposed KNOWN_FINDINGS entries (reported to the coordinator); used until they are merged.
 PROPOSED_FINDINGS = [
- {"id": "F120", "property": "C02", "properties": ["C02", "C01"], "status": "known",
-  "what": "a SEQUENCE whose component list is just the extension marker (A ::= SEQUENCE { ... }) is emitted with "
-          "first_extension = -1, i.e. as a non-extensible type: SEQUENCE_encode_oer writes no preamble at all (empty encoding) "
-          "where X.696 16.2 requires one preamble octet holding the extension bit (00); a later version of the type that adds "
-          "components cannot be told apart from this one",
-  "witness": {"module": "M DEFINITIONS AUTOMATIC TAGS ::= BEGIN A ::= SEQUENCE { ... } END", "type": "A",
-              "op": "enc oer (seq)", "expect": "^ok -$"},
-  "matcher": "syntax == oer and the type contains a SEQUENCE with an extension marker and no components"},
  {"id": "F121", "property": "C02", "properties": ["C02", "C01", "C03"], "status": "known",
   "what": "SEQUENCE_decode_oer tests the extension bit in phase 2 as ((uint8_t *)preamble->buffer)[0] & 0x80 after "
           "asn_get_few_bits has advanced preamble->buffer: for an extensible SEQUENCE with >= 8 OPTIONAL/DEFAULT root "
